@@ -89,7 +89,10 @@ class C16(Check):
             def _render_(self, render_data, render_args):
                 return Frame(0, 1, geometry.Size(1, 1), " ")
 
-            return type(name, (base,), {"_get_render_size_": _get_render_size_, "_render_": _render_})
+            # the sibling class lists a plain (non-render) mixin before its render base - legal, and the walk over the
+            # MRO that collects the ancestors' namespaces must not stop at it
+            bases = (type("PlainMixin", (), {}), base) if name == "S" else (base,)
+            return type(name, bases, {"_get_render_size_": _get_render_size_, "_render_": _render_})
 
         cls2 = {}
         ns2 = {}
@@ -133,6 +136,11 @@ class C16(Check):
         tcls = cls[tname]
         defaults = {n: RenderArgs(cls[n]) for n in NAMES}
         live = list(defaults.values())
+        ok_defaults = all(set(defaults[n]._namespaces) == {cls[m] for m in self.expected_members(n)} for n in NAMES)
+        eng.claim("the default set of every class holds a namespace exactly for the classes of its hierarchy that own one", ok_defaults)
+        if not ok_defaults:
+            eng.reachable()
+            return
         snap0 = self.snapshot(live)
 
         # namespaces handed to the operations are instances of the field-inheriting subclasses on half of the paths; the set
